@@ -1166,7 +1166,7 @@ func isFieldStringable(tpe ast.Expr) bool {
 		switch ident.Name {
 		case "int", "int8", "int16", "int32", "int64",
 			"uint", "uint8", "uint16", "uint32", "uint64",
-			"float64", "string", "bool":
+			"float32", "float64", "string", "bool":
 			return true
 		}
 	} else if starExpr, ok := tpe.(*ast.StarExpr); ok {
